@@ -177,6 +177,7 @@ int main() {
         if (w.size() == 2 && w[0] == "walk") {
             bytes b;
             if (!parse_hex(w[1], b)) return "bad-op";
+            rt.reset(new RadioTap());          // a case start: leaves a default header behind, like `new`
             return walk(b);
         }
         if (w.size() == 3 && w[0] == "skipto") {
@@ -184,6 +185,7 @@ int main() {
             if (!parse_hex(w[2], b)) return "bad-op";
             unsigned bit = unsigned(std::stoul(w[1]));
             if (bit > 31) return "bad-op";
+            rt.reset(new RadioTap());
             return skipto(bit, b);
         }
         if (!rt) rt.reset(new RadioTap());   // inside the loop: an exception of the constructor becomes a result line
